@@ -11,7 +11,7 @@ NOTE = ('Trusted base: clang 14 Sema + CFG builder as driven by engine/tbxfacts.
 CLAIMS = {
  'C01': ('A1 lockset/thread-role race freedom of the cross-thread queue and wake-up token, A3 swap+acknowledge atomicity, A4 no-lost-wake-up '
          'shape of producers and loop start, drain-on-exit reachability in both back-ends and destructors, copy-before-invoke / one-pop-per-invoke, '
-         'FIFO container discipline and cancel routing by id parity, task invocation only on loop-role functions, role closure over every loop-written field with run() handing over to runNext() only behind the role test, running batch always finished (must-fact), wake-up token reset with the channel and with every read that empties the eventfd', '§4 C01, §10.3 D25',
+         'FIFO container discipline and cancel routing by id parity, task invocation only on loop-role functions, role closure over every loop-written field with run() handing over to runNext() only behind the role test, running batch always finished (must-fact), wake-up token reset with the channel and with every read that empties the eventfd, stable removal in cancel() (the eraser only looks, compacts and erases), no lost wake-up at the consumer (dataflow of "queue known empty" / "wake-up known pending": one of them at every exit of the handler)', '§4 C01, §10.3 D25',
          'lockset + CFG path rules over clang AST/CFG'),
  'C03': ('A7 snapshot-dispatch re-validation in both back-ends, record re-resolution per ready descriptor, A8 no throwing look-up in the dispatch '
          'loops, no iterate-while-mutate over fd_events, one-shot-before-callback, epoll/select sibling agreement, interest-set table (counter stepped under the matching events_ bit, epoll mask / select sets requested iff counter > 0, kernel-bit to tbox-bit translation incl. HUP->read, epoll_ctl ADD/MOD/DEL by old/new mask), dispatch coverage by finite folding (exact index ranges of both dispatch loops, select scan gate, only negative descriptors skipped, record recycled exactly at count 0), the dispatch loop\'s guard reference dropped under the key the record is registered under, enable()/disable()/reloadEpoll() of both back-ends replayed from every start state (kinds 1..7, counters 0..2, enabled or not) against the counter protocol and a model of the kernel registration (epoll_ctl operations legal, registered mask = kinds with a positive counter)', '§4 C03, §10.7',
